@@ -118,6 +118,14 @@ func (r *Run) Violate(fp, detail string, replay interface{}) {
 	}
 }
 
+// Has reports whether a violation with this fingerprint is already recorded.
+func (r *Run) Has(fp string) bool {
+	r.mu.Lock()
+	defer r.mu.Unlock()
+	_, ok := r.violations[fp]
+	return ok
+}
+
 func (r *Run) NumViolations() int {
 	r.mu.Lock()
 	defer r.mu.Unlock()
@@ -209,6 +217,14 @@ func (r *Run) Finish() {
 		evdir = e
 	}
 	os.MkdirAll(filepath.Join(evdir, "replays"), 0o755)
+	if old, _ := filepath.Glob(filepath.Join(evdir, "replays", r.ID+"-*.json")); len(old) > 0 {
+		for _, f := range old {
+			os.Remove(f)
+		}
+	}
+	if p := os.Getenv("VERIF_DUMP_FPS"); p != "" {
+		os.WriteFile(p, []byte(strings.Join(fps, "\n")+"\n"), 0o644)
+	}
 	var knownOut []map[string]interface{}
 	for i, k := range known {
 		if hit[i] > 0 {
